@@ -463,7 +463,8 @@ def _pop_line_before_zid(words: list[str]) -> str:
 
     priority = ""
     if (
-        words
+        symbol != "-"
+        and words
         and len(words[0]) == 2
         and words[0][0] == "P"
         and words[0][1].isdigit()
